@@ -78,6 +78,9 @@ pub fn emit_case(c: &Value, id: u64, out: &mut Out) {
         }
         let mut line = json!({"ev":"case","case":id,"cfg":cfg,"chunks":c["chunks"],"toks":toks,"dom":po.tree_flags,"quirks":po.quirks,
                               "istate":po.istate,"panic": match &po.panic { Some(m) => json!([cps(m)]), None => json!([]) }});
+        if c.get("inject").is_some() {
+            line["virtual"] = cps(&po.virtual_text);
+        }
         if c.get("bytes").is_some() {
             line["bytes"] = c["bytes"].clone();
             line["cfg"].as_object_mut().unwrap().remove("bytes");
@@ -470,6 +473,25 @@ pub fn main(args: &Args) {
                 c["scripting"] = json!(r.chance(2, 3));
                 if r.chance(1, 10) {
                     c["srcdoc"] = json!(true);
+                }
+                if args.has("inject") {
+                    // scripts whose end tags suspend the parser, and text "written" at each suspension
+                    let text = from_cps(&c["chunks"][0]);
+                    let pieces = ["<script>a</script>", "<script></script>", "<svg><script>b</script></svg>", "<table><script>c</script>"];
+                    let mut t2 = String::new();
+                    for (k, part) in text.split('<').enumerate() {
+                        if k > 0 {
+                            t2.push('<');
+                        }
+                        t2.push_str(part);
+                        if r.chance(1, 4) {
+                            t2.push_str(*r.pick(&pieces));
+                        }
+                    }
+                    t2.push_str("<script>z</script>x");
+                    c["chunks"] = json!([cps(&t2)]);
+                    let writes = ["<b>w", "</p><td>", "x", "<!--", "<script>n</script>y", "\n", "&amp", "<title>", "</title><p>", "<svg>", "<plaintext>", ""];
+                    c["inject"] = Value::Array((0..4).map(|_| cps(*r.pick(&writes))).collect());
                 }
                 if args.has("c02") {
                     if r.chance(1, 4) {
